@@ -116,7 +116,9 @@ def check_c03(tier, seed):
                 'each case is run through PortSelect/PortsSemanticsCfg/PortsCfg/match/Builder.build on a generated component '
                 'with exactly those ports. Random configurations with up to 6 ports per side are validated by '
                 'PortSelectionTrace.tla.')
-    cfgs = ['PortSelection_provides.cfg', 'PortSelection_requires.cfg', 'PortSelection_presets.cfg']
+    # (case_*: port names that differ in letter case only are different ports)
+    cfgs = ['PortSelection_provides.cfg', 'PortSelection_requires.cfg', 'PortSelection_presets.cfg',
+            'PortSelection_case_req.cfg', 'PortSelection_case_prov.cfg']
     if tier == 'thorough':
         cfgs.append('PortSelection_both.cfg')
     for cfg in cfgs:
